@@ -11,7 +11,8 @@ import CogentModel.Model.Composable
   neither through `atomic_write`.  `input_id in self.data_store` (the skip test of `_apply_to`) is
   "a file with that name is listed" — an empty record file counts.
 
-  Variant `atomicMd5First` is the repaired `_write` (fixes/C19-datastore-atomic-record.patch): the md5
+  That was `_write` before fix 8ee96b6d1 (variant `inPlace`, kept to name a regression).  Variant `atomicMd5First`
+  is `_write` AS IT IS NOW (fixes/C19-datastore-atomic-record.patch, committed as 8ee96b6d1): the md5
   file and then the record file are each put in place by one rename (`atomic_write`), the record last,
   so the record's appearance is the commit point.
 
@@ -57,8 +58,8 @@ def stepCell (c : Cell) : COp → Cell
   | .putMd5 v => { c with md5 := .full v }
 
 inductive Variant where
-  | inPlace          -- the code as it is
-  | atomicMd5First   -- repaired: md5 then record, each through atomic_write
+  | inPlace          -- historical (before 8ee96b6d1): plain open, record then md5
+  | atomicMd5First   -- THE model of the code as it is now: md5 then record, each through atomic_write
   deriving DecidableEq, Repr
 
 /-- the file operations of writing one result `v` (completed → record file, not-completed → nc file) -/
